@@ -91,6 +91,24 @@ Theorem C17_negation_with_port_mid_refuted :
 Proof. exact negation_bypassed_with_port_mid. Qed.
 Print Assumptions C17_negation_with_port_mid_refuted.
 
+(* Several files (read_known_hosts / known_hosts= with a list of file names): each file is loaded on
+   its own, so the entry lines are exactly those of each file in order - a line never spans two files,
+   whether or not a file ends in a newline - and a lookup pass returns, per marker, the union of what it
+   returns for each file alone. *)
+Theorem C17_files_entries : forall x ts,
+  kh_entries x (flat_map splitlines ts) = flat_map (fun t => kh_entries x (splitlines t)) ts.
+Proof. exact kh_entries_files. Qed.
+Print Assumptions C17_files_entries.
+
+Theorem C17_files_union : forall x l1 l2 st st1 st2 host addr port r r1 r2,
+  kh_load_lines x (l1 ++ l2) kh_empty = Some st ->
+  kh_load_lines x l1 kh_empty = Some st1 -> kh_load_lines x l2 kh_empty = Some st2 ->
+  kh_match x st host addr port = Some r ->
+  kh_match x st1 host addr port = Some r1 -> kh_match x st2 host addr port = Some r2 ->
+  forall m k, In k (keys_of m r) <-> In k (keys_of m r1) \/ In k (keys_of m r2).
+Proof. exact kh_match_files_union. Qed.
+Print Assumptions C17_files_union.
+
 (* The [host]:port fallback: when a port was given and the lookup with the port found no trusted key
    and no CA key, trusted and CA keys come from the plain-name lookup and the revoked keys from both
    lookups; otherwise the answer is the lookup with the port. *)
@@ -364,3 +382,9 @@ Example C17_ex_negation_with_port :
   kh_lookup_lines wit_ext [[49;50;55;46;48;46;48;46;49;44;33;103;32;75]] [104] [49;50;55;46;48;46;48;46;49] 2222
   = Some {| r_host := [7]; r_ca := []; r_revoked := [] |}.
 Proof. exact negation_with_port_now_excludes. Qed.
+
+(* two files, the first without a final newline: "h K" and "@revoked * K" stay two lines *)
+Example C17_ex_files :
+  kh_lookup_files wit_ext [[104; 32; 75]; 64 :: txt_revoked ++ [32; 42; 32; 75; 10]] [104] [] 0
+  = Some {| r_host := [7]; r_ca := []; r_revoked := [7] |}.
+Proof. vm_compute. reflexivity. Qed.
